@@ -89,9 +89,10 @@ func seqnoInvalid(seqno, reference uint16) bool {
 	return false
 }
 
-// set sets a bit in the bitmap, shifting if necessary
+// set sets a bit in the bitmap, shifting if necessary.  The caller
+// invalidates the bitmap when the stream restarts.
 func (bitmap *bitmap) set(seqno uint16) {
-	if !bitmap.valid || seqnoInvalid(seqno, bitmap.first) {
+	if !bitmap.valid {
 		bitmap.first = seqno
 		bitmap.bitmap = 1
 		bitmap.valid = true
@@ -163,6 +164,8 @@ func (cache *Cache) Store(seqno uint16, timestamp uint32, keyframe bool, marker 
 		cache.lastValid = true
 		cache.expected++
 		cache.received++
+		// the stream restarted, restart the loss bitmap too
+		cache.bitmap.valid = false
 	} else {
 		cmp := compare(cache.last, seqno)
 		if cmp < 0 {
